@@ -4,6 +4,7 @@
    generation and a printer; the theorems below pin its precedence and
    associativity decisions.  Both real parsers are compared with it on every run. *)
 From PV Require Import Base.Common Base.Tok Model.RefParser Proofs.RefParserProofs Proofs.RefParserRange.
+From PV Require Model.DeltaExpr Proofs.DeltaExprProofs.
 
 (* Printing any well-formed tree and parsing the tokens gives the tree back:
    expressions (this pins `a - b - c`, `a * b + c`, bitwise chains of one operator,
@@ -29,7 +30,78 @@ Theorem C16_parse_wf : forall fuel ts ds,
   toks_ok ts = true -> parse_module fuel ts = Some ds -> wf_module ds = true.
 Proof. exact parse_wf. Qed.
 
+(* ---- the second-generation expression parser itself ------------------------------------------
+   Model/DeltaExpr.v follows src/delta/parser.rs function by function (parse_addition,
+   parse_multiplication, parse_singular_expression with its `as` loop, unary operators,
+   primary expressions with address depth, reference steps, calls, array and structure
+   literals, size-of and length-of; the comparison of `if`), the emission into the node array
+   folded into tree construction.  At EQUAL fuel, for every token list: *)
+
+(* whatever the reference parser (= the first generation) accepts, the second generation accepts
+   with the same rest and the same tree up to the known difference that `-5` stays a unary minus
+   (D24) - unless a reference has exactly 127 steps, which it rejects (the listed finding D70) *)
+Theorem C16_delta_expression_is_reference : forall fuel ts e rest,
+  RefParser.parse_expr fuel ts = Some (e, rest) ->
+  if DeltaExpr.steps_ok e
+  then exists e', DeltaExpr.parse_expression_res fuel ts = DeltaExpr.Ok (e', rest) /\
+                  DeltaExpr.fold_negative_literals e' = e /\ DeltaExpr.admissible e' = true
+  else DeltaExpr.parse_expression_res fuel ts = DeltaExpr.Err DeltaExpr.DepthExceeded.
+Proof. exact DeltaExprProofs.delta_expr_is_reference_exact. Qed.
+
+(* and conversely: a tree it builds is the reference tree, or the reference parser rejects the
+   tokens at every fuel (three missing checks of the second generation: a bitwise or shift
+   operator after an unparenthesised binary expression, an ill-formed type in a cast or size-of) *)
+Theorem C16_delta_accepts_iff : forall fuel ts e' rest,
+  DeltaExpr.parse_expression_res fuel ts = DeltaExpr.Ok (e', rest) ->
+  (DeltaExpr.admissible e' = true -> RefParser.parse_expr fuel ts = Some (DeltaExpr.fold_negative_literals e', rest)) /\
+  (DeltaExpr.admissible e' = false -> forall fuel', RefParser.parse_expr fuel' ts = None).
+Proof. exact DeltaExprProofs.delta_accepts_reference_iff_admissible. Qed.
+
+Theorem C16_delta_comparison_is_reference : forall f ts op l r rest,
+  RefParser.parse_comparison f ts = Some ((op, l, r), rest) ->
+  DeltaExpr.steps_ok l = true -> DeltaExpr.steps_ok r = true ->
+  exists l' r', DeltaExpr.parse_comparison f ts = DeltaExpr.Ok ((op, l', r'), rest) /\
+                DeltaExpr.fold_negative_literals l' = l /\ DeltaExpr.fold_negative_literals r' = r /\
+                DeltaExpr.admissible l' = true /\ DeltaExpr.admissible r' = true.
+Proof. exact DeltaExprProofs.delta_comparison_is_reference. Qed.
+
+(* the witness for D70, and the three seeded changes of the expression parser *)
+Theorem C16_delta_rejects_127_steps_refuted :
+  exists ts e, RefParser.parse_expr 400 ts = Some (e, []) /\
+               DeltaExpr.parse_expression_res 400 ts = DeltaExpr.Err DeltaExpr.DepthExceeded /\
+               forall fuel, DeltaExpr.parse_expression fuel ts = None.
+Proof. exact DeltaExprProofs.delta_expr_is_reference_refuted. Qed.
+
+Theorem C16_right_associative_multiplication_refuted :
+  exists ts e_ref e_mut,
+    RefParser.parse_expr 50 ts = Some (e_ref, []) /\
+    DeltaExpr.parse_expression 50 ts = Some (e_ref, []) /\
+    DeltaExpr.mut1_parse_expression 50 ts = DeltaExpr.Ok (e_mut, []) /\ e_mut <> e_ref.
+Proof. exact DeltaExprProofs.mutant_mul_right_assoc_refuted. Qed.
+
+Theorem C16_single_cast_refuted :
+  exists ts e_ref e_mut rest_mut,
+    RefParser.parse_expr 50 ts = Some (e_ref, []) /\
+    DeltaExpr.parse_expression 50 ts = Some (e_ref, []) /\
+    DeltaExpr.mut2_parse_expression 50 ts = DeltaExpr.Ok (e_mut, rest_mut) /\
+    e_mut <> e_ref /\ rest_mut <> [].
+Proof. exact DeltaExprProofs.mutant_as_once_refuted. Qed.
+
+Theorem C16_address_depth_from_zero_refuted :
+  exists ts e_ref e_mut,
+    RefParser.parse_expr 50 ts = Some (e_ref, []) /\
+    DeltaExpr.parse_expression 50 ts = Some (e_ref, []) /\
+    DeltaExpr.mut3_parse_expression 50 ts = DeltaExpr.Ok (e_mut, []) /\ e_mut <> e_ref.
+Proof. exact DeltaExprProofs.mutant_address_depth_refuted. Qed.
+
 Print Assumptions C16_parse_print_expr.
 Print Assumptions C16_parse_print_stmt.
 Print Assumptions C16_parse_print_module.
 Print Assumptions C16_parse_wf.
+Print Assumptions C16_delta_expression_is_reference.
+Print Assumptions C16_delta_accepts_iff.
+Print Assumptions C16_delta_comparison_is_reference.
+Print Assumptions C16_delta_rejects_127_steps_refuted.
+Print Assumptions C16_right_associative_multiplication_refuted.
+Print Assumptions C16_single_cast_refuted.
+Print Assumptions C16_address_depth_from_zero_refuted.
